@@ -147,6 +147,9 @@ def new_numvar(kind, params, N):
     return params[1]        # compression: right side of the graph
 
 
+_SPELL = [0]
+
+
 def apply_library(kind, params, F):
     g = lib()
     if kind == "xor":
@@ -155,10 +158,16 @@ def apply_library(kind, params, F):
         return g.OrSubstitution(F, params[0])
     if kind == "maj":
         return g.MajoritySubstitution(F, params[0])
-    if kind == "eq":
-        return g.AllEqualSubstitution(F, params[0])
-    if kind == "neq":
-        return g.NotAllEqualSubstitution(F, params[0])
+    if kind in ("eq", "neq"):
+        # the two documented spellings: the named function, and AllEqualSubstitution with its `invert` flag (given as a
+        # bool, or as the 0 / 1 many callers write for a flag)
+        _SPELL[0] += 1
+        how = _SPELL[0] % 4
+        if kind == "eq":
+            return [lambda: g.AllEqualSubstitution(F, params[0]), lambda: g.AllEqualSubstitution(F, params[0], False),
+                    lambda: g.AllEqualSubstitution(F, params[0], invert=0), lambda: g.AllEqualSubstitution(F, params[0], invert=False)][how]()
+        return [lambda: g.NotAllEqualSubstitution(F, params[0]), lambda: g.AllEqualSubstitution(F, params[0], True),
+                lambda: g.AllEqualSubstitution(F, params[0], invert=1), lambda: g.AllEqualSubstitution(F, params[0], invert=True)][how]()
     if kind == "one":
         return g.ExactlyOneSubstitution(F, params[0])
     if kind == "exact":
@@ -182,7 +191,7 @@ def apply_library(kind, params, F):
     return g.VariableCompression(F, compression_graph(*params), "xor" if kind == "xorcomp" else "maj")
 
 
-GRAPH_REPS = ("cnfgen", "cnfgen-repeated", "nx", "nx-multi", "user-class", "nx-directed")
+GRAPH_REPS = ("cnfgen", "cnfgen-repeated", "nx", "nx-multi", "user-class", "nx-directed", "user-class-generator")
 
 
 def compression_graph(nbrs, R, rep="cnfgen"):
@@ -192,6 +201,9 @@ def compression_graph(nbrs, R, rep="cnfgen"):
     if rep == "user-class":
         from ..ducks import computed_bipartite
         return computed_bipartite(len(nbrs), R, edges)      # edges computed by overridden methods, nothing stored
+    if rep == "user-class-generator":
+        from ..ducks import computed_bipartite
+        return computed_bipartite(len(nbrs), R, edges, order="generator")      # ... whose neighbourhoods are one-shot iterators
     if rep in ("cnfgen", "cnfgen-repeated"):
         B = BipartiteGraph(len(nbrs), R)
         for (u, v) in (edges if rep == "cnfgen" else list(reversed(edges)) + edges[::2]):
